@@ -747,20 +747,27 @@ fn sa_type_to_syn_type(type_ref: &Type) -> anyhow::Result<syn::Type> {
 
 const MAX_WRITTEN_TYPE_NESTING: usize = 32;
 
-/// An upper bound for how deep the parser has to descend into `written`: open brackets,
-/// plus the pointers and references seen so far (each applies to all that follows it).
+/// How deep the parser has to descend into `written`: open brackets, plus the pointers and
+/// references that apply to what is being read (up to the next comma or closing bracket).
 fn written_type_nesting(written: &str) -> usize {
-    let mut depth = 0usize;
+    // One entry per open bracket (and one for the top level): the pointers and references
+    // seen since the last comma at that level.
+    let mut prefixes = vec![0usize];
     let mut deepest = 0usize;
     for c in written.chars() {
         match c {
-            '<' | '[' | '(' | '*' | '&' => {
-                depth += 1;
-                deepest = deepest.max(depth);
+            '<' | '[' | '(' => prefixes.push(0),
+            '>' | ']' | ')' => {
+                if prefixes.len() > 1 {
+                    prefixes.pop();
+                }
             }
-            '>' | ']' | ')' => depth = depth.saturating_sub(1),
-            _ => {}
+            ',' | ';' => *prefixes.last_mut().unwrap() = 0,
+            '*' | '&' => *prefixes.last_mut().unwrap() += 1,
+            _ => continue,
         }
+        let depth = prefixes.len() - 1 + prefixes.iter().sum::<usize>();
+        deepest = deepest.max(depth);
     }
     deepest
 }
